@@ -993,10 +993,28 @@ class Executor:
         return out
 
     def ex_Dict(self, e, st, fr):
-        if e.keys:
-            raise Unsupported('non-empty dict literal')
-        kty, vty = self.specs.literal_dict_type(fr, e)
-        return [(self.new_dict(st, kty, vty), st)]
+        if not e.keys:
+            kty, vty = self.specs.literal_dict_type(fr, e)
+            return [(self.new_dict(st, kty, vty), st)]
+        if any(k is None for k in e.keys):
+            raise Unsupported('dict literal with ** unpacking')
+        out = []
+        flat = []
+        for k, v in zip(e.keys, e.values):
+            flat += [k, v]
+        for vs, s in self.ev_list(flat, st, fr):
+            if isinstance(vs, Exc):
+                out.append((vs, s))
+                continue
+            try:
+                kty, vty = self.specs.literal_dict_type(fr, e)
+            except Unsupported:
+                kty, vty = T_ANY, T_ANY
+            d = self.new_dict(s, kty, vty)
+            for i in range(0, len(vs), 2):
+                self.dict_set(d, vs[i], vs[i + 1], s)
+            out.append((d, s))
+        return out
 
     def ex_UnaryOp(self, e, st, fr):
         out = []
